@@ -132,7 +132,7 @@ CHECKS.update({
             "The built rtcmlogger (tag verif) is run over OS pipes with VERIF_PAUSE_rec.write holding the recorder before its write while main reaches end of input - the counterexample schedule, deterministic - and free-running "
             "with seeded chunkings, sizes around the 8096-byte block; stdout and the day's file are compared with stdin after the process has exited.",
             "Trusted: SHA-1 + length for large inputs (bytes for small ones); the pause hook only delays.", "DESIGN.md 6/C16"),
-    "C18": ("model_checking", "TLC model checking of CircularQueue.tla (RWMutex protocol, eviction and insertion as separate steps, 3 processes) + exhaustive Add/Get sequences and hook-linearised concurrent histories validated by TLC",
+    "C18": ("model_checking", "TLC model checking of CircularQueue.tla (RWMutex protocol, eviction and insertion as separate steps, 3 processes), Apalache inductive invariant for any capacity (CircularQueue_Ind, bound to CircularQueue by TLC) + exhaustive Add/Get sequences and hook-linearised concurrent histories validated by TLC",
             "Design: the lock protocol refines the atomic last-N queue for capacities 1-3, three processes, up to 6/7 operations (vacuity guard: without the lock TLC finds the torn snapshot).  Code: every Add/Get sequence of length 9 (11-12) "
             "for every capacity 1..8, long runs far beyond capacity, and concurrent adders/readers under the race detector; the addition order is logged by the verif hook inside the critical section, and TLC checks each snapshot is the "
             "contiguous run LastMin(N, adds[1..k]) for a k consistent with the real-time order of calls and returns.",
